@@ -164,7 +164,7 @@ def run(R):
         R.violation("harness does not build against /repo", {"build_log": log[-3000:]}, no_input=True)
         return
     corpus = vlib.load_corpus(PID)
-    n = 150 if R.tier == "quick" else 2500
+    n = 150 if R.tier == "quick" else 5000
     cases = corpus + [gen_conc_case(R.rng) for _ in range(n)]
     env = dict(os.environ, GORACE="halt_on_error=1 exitcode=66")
     hists = vlib.run_cases([exe], cases, env=env, timeout=1500)
